@@ -61,6 +61,9 @@ def subspaces(tier):
     for b in BUILDERS:
         out += C.structure_subspaces(D.shapes(3, 3) + [(2, 2)], 2, False, canonical=True, builder=b, options=[True, True], filter="none", late="plain")
         out += C.structure_subspaces(D.shapes(3, 3), 2, False, canonical=True, builder=b, options=[True, True], filter="none", late="queried")
+    for b in BUILDERS:
+        out += C.tall_subspaces(builder=b, options=[True, True], filter="none")
+        out += C.wide_subspaces(builder=b, options=[True, True], filter="none", pairs=((4, 5), (1, 8)), histories=("longfirst", "roundrobin"))
     s5 = [s for s in D.shapes(3, 5) if sum(s) == 5]
     for b in (["disj", "at"] if tier == "quick" else BUILDERS):
         out += C.structure_subspaces(s5, 3, False, canonical=True, builder=b, options=[True, True], filter="none")
